@@ -1,6 +1,7 @@
 import AvroModel.Theorems.C12
 import AvroModel.Theorems.C12layouts
 import AvroModel.Theorems.C12canon
+import AvroModel.Theorems.C12typed
 /-
 C12 — skipping consumes exactly what reading would, all parts together:
 * `Theorems/C12.lean`: on the canonical layout of every value; a struct target lacking fields;
